@@ -639,7 +639,56 @@ class _Replace(ast.NodeTransformer):
         return self.generic_visit(n)
 
 
+class _Super(ast.NodeTransformer):
+    """``super().m(a)`` / ``super(C, self).m(a)`` in a method of C  ->  ``B.m(self, a)`` where B is
+    the next class after C in the (single-inheritance, in-package) MRO that defines m"""
+
+    def __init__(self, repo, ci, self_name):
+        self.repo, self.ci, self.self_name = repo, ci, self_name
+        self.n = 0
+
+    def visit_Call(self, n):
+        self.generic_visit(n)
+        f = n.func
+        if isinstance(f, ast.Attribute) and isinstance(f.value, ast.Call) and isinstance(f.value.func, ast.Name) \
+                and f.value.func.id == 'super' and not f.value.keywords:
+            a = f.value.args
+            if a and not (len(a) == 2 and isinstance(a[0], ast.Name) and a[0].id == self.ci.name
+                          and isinstance(a[1], ast.Name) and a[1].id == self.self_name):
+                return n
+            for b in self.repo.mro(self.ci)[1:]:
+                if f.attr in b.methods:
+                    new = ast.Call(func=ast.Attribute(value=ast.Name(id=b.name, ctx=ast.Load()), attr=f.attr, ctx=ast.Load()),
+                                   args=[ast.Name(id=self.self_name, ctx=ast.Load())] + n.args, keywords=n.keywords)
+                    self.n += 1
+                    return ast.fix_missing_locations(ast.copy_location(new, n))
+        return n
+
+    def visit_FunctionDef(self, n):
+        return n           # nested functions: zero-argument super() means something else there
+
+    visit_Lambda = visit_ClassDef = visit_FunctionDef
+
+
+def desugar_super(repo):
+    count = 0
+    for fi in repo.functions.values():
+        if fi.cls is None or fi.qual != fi.cls.qual + '.' + fi.node.name or not isinstance(fi.node, ast.FunctionDef):
+            continue
+        a = fi.node.args
+        first = a.posonlyargs + a.args
+        if not first or any(isinstance(d, ast.Name) and d.id in ('staticmethod', 'classmethod') for d in fi.node.decorator_list):
+            continue
+        if len(repo.mro(fi.cls)) < 2 or fi.cls.name in repo.dupes:
+            continue
+        t = _Super(repo, fi.cls, first[0].arg)
+        fi.node.body = [ast.NodeTransformer.generic_visit(t, s) if False else t.visit(s) for s in fi.node.body]
+        count += t.n
+    return count
+
+
 def inline_helpers(repo):
+    repo.desugared_super = desugar_super(repo)
     inl = Inliner(repo).run()
     repo.inlined = inl.expanded
     repo.helpers = sorted(inl.helpers)
